@@ -375,4 +375,8 @@ func run(c *vm.Ctx) {
 		}
 		runHistory(c, r, i, nops, flavour, big)
 	}
+	fr := c.Rand("far")
+	for i := 0; i < c.Scale(6, 40); i++ {
+		checkFarSectors(c, fr, i)
+	}
 }
